@@ -1,4 +1,4 @@
-import MqttVerif.Conn.Lemmas.Qos2Recv
+import MqttVerif.Conn.Lemmas.Qos2Mon
 /-!
 # C07 — inbound QoS 2 is delivered exactly once per exchange   (agent P7)
 
@@ -299,6 +299,127 @@ theorem C07_handled_blocks (cfg : Cfg) (id : Nat) (s : St) (ops : List Op)
   ((at_most_once_aux cfg id ops s hwf hnd).2.1 h).1
 
 
+/-! ## the ghost of the driver (`Mon.q2Step`) tracks `qos2_publish_handled` exactly -/
+
+/-- what the monitor's reading of the events presupposes of the packets handed in (all hold for
+    real packets): the parser answers with the packet type of the frame and a legal QoS; the store
+    holds no PUBREC (it holds PUBLISH / PUBREL only: C05's `StoreInv`); a v3.1.1 PUBREC handed to
+    `send` carries no error reason code (v3.1.1 PUBREC has none); a delivered CONNACK has at most
+    one Session Expiry Interval property -/
+structure MonWf (cfg : Cfg) (s : St) (op : Op) : Prop where
+  parse : OpWf op
+  store : EPn.StoreNoPubrec s
+  v4 : ∀ p, op = .send p → p.kind = .pubrec → p.ver = 4 → Mon.isErrorRc p.rc = false
+  sei : ∀ p, Ev.recv p ∈ (step cfg s op).ev → (pSEI, 0) ∈ p.props → Mon.findProp p pSEI = some 0
+
+theorem startsNewSession_of_recv {l : List Ev} {p : Pkt} (hm : Ev.recv p ∈ l)
+    (h : (p.kind = .connect ∧ p.clean = true) ∨
+      (p.kind = .connack ∧ p.rc = some 0 ∧ (p.sp = false ∨ Mon.findProp p pSEI = some 0))) :
+    Mon.startsNewSession l = true := by
+  simp only [Mon.startsNewSession, List.any_eq_true]
+  refine ⟨_, hm, ?_⟩
+  rcases h with ⟨a, b⟩ | ⟨a, b, d⟩
+  · simp [a, b]
+  · rcases d with d | d <;> simp [a, b, d]
+
+/-- **the QoS 2 monitor is a theorem of the model** (driver monitors `VIOL sig=C07 notified_twice@…`
+    and the ghost `q2open` they run on).  If the ghost list `o` is duplicate-free and equals, as a
+    set, `qos2_publish_handled` before the call (`Tracks`), and the call neither starts a new
+    session (as seen by the monitor in its events), nor is a non-persistent `notify_closed`, nor
+    `restore_qos2_publish_handled` (the three cases in which the driver resets its ghost instead),
+    then folding the events of the call over the ghost reports **no second notification**
+    (`(Mon.q2Step o evs).2 = []`) and the new ghost again tracks `qos2_publish_handled` exactly.
+    Every configuration, state and operation. -/
+theorem C07_monitor_sound (cfg : Cfg) (s : St) (op : Op) (o : List Nat) (hw : MonWf cfg s op)
+    (ht : Tracks o s.handled)
+    (hns : Mon.startsNewSession (step cfg s op).ev = false)
+    (hcl : ¬ (op = .closed ∧ s.needStore = false)) (hrs : ∀ ids, op ≠ .restoreHandled ids) :
+    (Mon.q2Step o (step cfg s op).ev).2 = [] ∧
+    Tracks (Mon.q2Step o (step cfg s op).ev).1 (step cfg s op).s.handled := by
+  -- a call that is not the `send` of an error PUBREC requests no error PUBREC
+  have hq : (∀ p, op = .send p → EPn.nsSend p = false) → recvs (step cfg s op).ev = [] →
+      Mon.q2Step o (step cfg s op).ev = (o, []) := fun h1 h2 =>
+    q2Step_quiet o _ (EPn.ns_step cfg s op hw.store h1) h2
+  have same : Mon.q2Step o (step cfg s op).ev = (o, []) → (step cfg s op).s.handled = s.handled →
+      (Mon.q2Step o (step cfg s op).ev).2 = [] ∧
+      Tracks (Mon.q2Step o (step cfg s op).ev).1 (step cfg s op).s.handled := fun h1 h2 => by
+    rw [h1]; exact ⟨rfl, ht.congr h2⟩
+  cases op with
+  | send p =>
+    by_cases he : p.kind = .pubrec ∧ Mon.isErrorRc p.rc = true
+    · have hv : p.ver ≠ 4 := fun h4 => by have := hw.v4 p rfl he.1 h4; rw [he.2] at this; cases this
+      rcases send_errPubrec { cfg := cfg, s := s } p o rfl he.1 he.2 hv with ⟨h1, h2⟩ | ⟨h1, h2⟩
+      · exact same h1 h2
+      · show (Mon.q2Step o (send _ p).ev).2 = [] ∧ Tracks (Mon.q2Step o (send _ p).ev).1 (send _ p).s.handled
+        rw [h1, h2]; exact ⟨rfl, ht.erase _⟩
+    · have hns' : EPn.nsSend p = false := by
+        cases hh : EPn.nsSend p with
+        | false => rfl
+        | true =>
+          simp only [EPn.nsSend, Bool.and_eq_true, decide_eq_true_eq] at hh
+          exact absurd hh he
+      have h1 := hq (fun q hq' => by cases hq'; exact hns') (by simp [step])
+      rcases send_handled_ns { cfg := cfg, s := s } p with h | h | ⟨hk, _, rc, hrc, hge⟩
+      · exact same h1 h
+      · have : Mon.startsNewSession (step cfg s (.send p)).ev = true := h
+        rw [this] at hns; cases hns
+      · exact absurd ⟨hk, by simp [Mon.isErrorRc, hrc, hge]⟩ he
+  | recv inp parse =>
+    have hn : EPn.nsOf (step cfg s (.recv inp parse)).ev = [] :=
+      EPn.ns_step cfg s _ hw.store (fun q hq' => by cases hq')
+    have hfold := q2Step_no_send _ hn o
+    have hc := recv_cls { cfg := cfg, s := s } inp parse hw.parse
+    have hev : (step cfg s (.recv inp parse)).ev = (recv { cfg := cfg, s := s } inp parse).1.ev := rfl
+    have hs : (step cfg s (.recv inp parse)).s = (recv { cfg := cfg, s := s } inp parse).1.s := rfl
+    rw [hfold, hev, hs]
+    cases hc with
+    | quiet a b =>
+      simp only [recvs_nil, List.append_nil] at a
+      rw [a, b]; exact ⟨rfl, ht⟩
+    | other p a k n b =>
+      simp only [recvs_nil, List.nil_append] at a
+      rw [a, b]
+      simp only [List.map_cons, List.map_nil, q2Step_recv_other o p n k]
+      exact ⟨trivial, ht⟩
+    | pubrel p a k b =>
+      simp only [recvs_nil, List.nil_append] at a
+      rw [a, b]
+      simp only [List.map_cons, List.map_nil, q2Step_recv_pubrel o p k]
+      exact ⟨trivial, ht.erase _⟩
+    | newSess p a n b =>
+      exfalso
+      simp only [recvs_nil, List.nil_append] at a
+      have hm : Ev.recv p ∈ (step cfg s (.recv inp parse)).ev := by
+        rw [hev]; exact mem_recvs.1 (by rw [a]; simp)
+      have := startsNewSession_of_recv hm (by
+        rcases n with n | ⟨n1, n2, n3⟩
+        · exact .inl n
+        · refine .inr ⟨n1, n2, ?_⟩
+          rcases n3 with n3 | n3
+          · exact .inl n3
+          · exact .inr (hw.sei p hm n3))
+      rw [this] at hns; cases hns
+    | notify p id a k q pid ha b =>
+      simp only [recvs_nil, List.nil_append] at a
+      rw [a, b]
+      have hno : id ∉ o := fun hm => ha ((ht.2 id).1 hm)
+      simp only [List.map_cons, List.map_nil, q2Step_recv_new o p id k q pid hno]
+      exact ⟨trivial, ht.insert ha⟩
+  | timer k => exact same (hq (fun _ h => by cases h) (by simp [step])) (by simp [step])
+  | closed =>
+    cases hn : s.needStore
+    · exact absurd ⟨rfl, hn⟩ hcl
+    · exact same (hq (fun _ h => by cases h) (by simp [step])) (by simp [step, notifyClosed_handled, hn])
+  | setInterval d => exact same (hq (fun _ h => by cases h) (by simp [step])) (by simp [step])
+  | setFlag f b => exact same (hq (fun _ h => by cases h) (by simp [step])) (by cases f <;> simp [step, setFlag])
+  | setRespTimeout ms => exact same (hq (fun _ h => by cases h) (by simp [step])) (by simp [step])
+  | acquire => exact same (hq (fun _ h => by cases h) (by simp [step])) (by simp [step])
+  | register id => exact same (hq (fun _ h => by cases h) (by simp [step])) (by simp [step])
+  | release id => exact same (hq (fun _ h => by cases h) (by simp [step])) (by simp [step])
+  | erase id => exact same (hq (fun _ h => by cases h) (by simp [step])) (by simp [step])
+  | restoreHandled ids => exact absurd rfl (hrs ids)
+  | restorePackets ps => exact same (hq (fun _ h => by cases h) (by simp [step])) (by simp [step])
+
 /-! ## one call: duplicate answered, first copy notified -/
 
 /-- **C07 (1), v3.1.1**: a received QoS 2 PUBLISH whose identifier is handled produces no
@@ -417,6 +538,70 @@ theorem C07_first_is_notified_v5 {cfg : Cfg} {s : St} {inp : List Nat} {pb' : Fr
   · simp [prV5PublishMain, hq, hid, hh, e3]
   · simp [prV5PublishMain, hq, hid, hh, e3, mem_ins]
 
+
+/-! ## never swallowed, in the shape of the driver's monitor -/
+
+theorem hasError_handleV5Error (c : C) (e : Nat) : Mon.hasError (handleV5Error c e).ev = true := by
+  simp [handleV5Error, Mon.hasError, C.err, C.push]
+
+theorem prV5PublishAlias_none_err (c : C) (p : Pkt) (h : (prV5PublishAlias c p).2 = none) :
+    Mon.hasError (prV5PublishAlias c p).1.ev = true := by
+  simp only [prV5PublishAlias] at h ⊢
+  repeat' split at h
+  all_goals first | (simp at h; done) | skip
+  all_goals simp_all [hasError_handleV5Error]
+
+/-- **C07, never swallowed** (driver monitor `VIOL sig=C07 swallowed@<site>`): a complete, receivable
+    frame carrying a valid QoS 2 PUBLISH whose identifier is not handled, processed without any error
+    event, IS notified to the application (a `NotifyPacketReceived` with a PUBLISH of that
+    identifier) — on v3.1.1 always, on v5.0 because the only ways not to notify it (Topic Alias
+    invalid, Receive Maximum exceeded) report an error.  The monitor additionally requires the
+    connection to be established; the model needs no such condition. -/
+theorem C07_monitor_not_swallowed {cfg : Cfg} {s : St} {inp : List Nat} {pb' : Framing.PB} {fh : Nat} {data : List Nat}
+    (parse : Nat → Nat → List Nat → Except Nat Pkt) {p : Pkt} {id : Nat}
+    (h : Delivers cfg s inp pb' fh data) (ht : fh / 16 = 3) (hv : s.ver = 4 ∨ s.ver = 5)
+    (hp : parse s.ver fh data = .ok p) (hk : p.kind = .publish) (hq : p.qos = 2) (hid : p.pid = some id)
+    (hh : id ∉ s.handled) (hne : Mon.hasError (step cfg s (.recv inp parse)).ev = false) :
+    ∃ q, Ev.recv q ∈ (step cfg s (.recv inp parse)).ev ∧ q.kind = .publish ∧ q.pid = some id := by
+  rcases hv with hv | hv
+  · have := (C07_first_is_notified_v3 parse h ht hv (hv ▸ hp) hq hid hh).1
+    exact ⟨p, mem_recvs.1 (by rw [this]; simp), hk, hid⟩
+  · -- v5.0: no error event means the alias stage and the Receive Maximum test were passed
+    have hp5 : parse 5 fh data = .ok p := hv ▸ hp
+    have e : step cfg s (.recv inp parse) = prV5Publish { cfg := cfg, s := { s with pb := pb' } } (.ok p) := by
+      rw [step_recv_of_delivers h, ht]; simp [dispatchRecv, hv, hp5]
+    cases hal : (prV5PublishAlias { cfg := cfg, s := { s with pb := pb' } } p).2 with
+    | none =>
+      exfalso
+      rw [e, prV5Publish_ok, hal] at hne
+      rw [prV5PublishAlias_none_err _ _ hal] at hne
+      cases hne
+    | some p' =>
+      have passes : (∀ m, s.recvMax = some m → s.publishRecv.length < m) →
+          ∃ q, Ev.recv q ∈ (step cfg s (.recv inp parse)).ev ∧ q.kind = .publish ∧ q.pid = some id := by
+        intro hrm
+        obtain ⟨r1, _, _, r4⟩ := C07_first_is_notified_v5 parse h ht hv hp5 ⟨hal, hrm⟩ hq hid hh
+        obtain ⟨k1, _, k3⟩ := prV5PublishAlias_some_fields hal
+        exact ⟨p', mem_recvs.1 (by rw [r1]; simp), k1.trans hk, k3.trans hid⟩
+      rcases Option.eq_none_or_eq_some s.recvMax with hmx | ⟨m, hmx⟩
+      · exact passes (fun m hm => by rw [hmx] at hm; cases hm)
+      · by_cases hlt : s.publishRecv.length < m
+        · exact passes (fun m' hm => by rw [hmx] at hm; cases hm; exact hlt)
+        · exfalso
+          have hpid : ¬ (p.qos > 0 ∧ p.pid.isNone = true) := by simp [hid]
+          have hex : p.qos > 0 ∧
+              rmExceeded (prV5PublishAlias { cfg := cfg, s := { s with pb := pb' } } p).1 = true := by
+            refine ⟨by omega, ?_⟩
+            have hst : (prV5PublishAlias { cfg := cfg, s := { s with pb := pb' } } p).1.s.recvMax = s.recvMax ∧
+                (prV5PublishAlias { cfg := cfg, s := { s with pb := pb' } } p).1.s.publishRecv = s.publishRecv := by
+              rcases prV5PublishAlias_some_state hal with h1 | ⟨t', h1⟩ <;> rw [h1] <;> exact ⟨rfl, rfl⟩
+            unfold rmExceeded
+            rw [hst.1, hst.2, hmx]
+            exact decide_eq_true (Nat.le_of_not_lt hlt)
+          rw [e, prV5Publish_ok, hal] at hne
+          simp only [] at hne
+          rw [if_neg hpid, if_pos hex, hasError_handleV5Error] at hne
+          cases hne
 
 /-! ## (4) persistence across resume / export-restore; release makes the id new again -/
 
@@ -573,6 +758,22 @@ example : Deletes { role := .server, pw := 2 } 7 { s4 [7] with status := .connec
     (.send { ver := 4, kind := .connack, size := 4, rc := some 0, sp := false }) := by unfold Deletes; decide
 example := C07_survives_resume cfg (s4 [7]) rfl
 example : (step cfg (s4 [7]) .closed).s.handled = [7] := by decide
+-- (5) the monitor theorems: ghost [7] tracks handled = [7]; a PUBREL 7 arrives; afterwards both are empty
+theorem monWf_rel : MonWf cfg (s4 [7]) (.recv inRel parse) where
+  parse := parse_ok
+  store := by intro x hx; simp [s4, St.init] at hx
+  v4 := by intro p h; cases h
+  sei := by
+    intro p hm hp
+    have : (step cfg (s4 [7]) (.recv inRel parse)).ev = [.recv (rel 4)] := by decide
+    rw [this] at hm; simp at hm; subst hm; simp [rel] at hp
+example : Tracks [7] (s4 [7]).handled ∧ Mon.startsNewSession (step cfg (s4 [7]) (.recv inRel parse)).ev = false ∧
+    Mon.q2Step [7] (step cfg (s4 [7]) (.recv inRel parse)).ev = ([], []) ∧
+    (step cfg (s4 [7]) (.recv inRel parse)).s.handled = [] :=
+  ⟨⟨by decide, fun x => Iff.rfl⟩, by decide, by decide, by decide⟩
+example := C07_monitor_sound cfg (s4 [7]) (.recv inRel parse) [7] monWf_rel ⟨by decide, fun x => Iff.rfl⟩
+  (by decide) (by intro h; cases h.1) (by intro ids h; cases h)
+example := C07_monitor_not_swallowed parse (delivers4 []) (by decide) (.inl rfl) rfl rfl rfl rfl (by decide) (by decide)
 
 end C07Ex
 
